@@ -10,6 +10,7 @@
 use crate::alloc;
 use crate::common::*;
 use crate::fitsx;
+use crate::asciix;
 use crate::dispatch;
 use crate::iters::*;
 use crate::st::*;
@@ -429,7 +430,7 @@ fn run_child(kind: &str, bytes: &[u8], scratch: &str, k: u64) -> (String, usize)
   }
 }
 
-fn text_totality(rep: &mut Report, rng: &mut Rng) {
+fn text_totality(rep: &mut Report, orc: &mut Oracle, rng: &mut Rng) {
   // valid documents mutated at character level + random bytes, through every text decoder and store loader
   let seeds = [
     "3/1 3 5-7 4/100-102 5/",
@@ -469,6 +470,14 @@ fn text_totality(rep: &mut Report, rng: &mut Rng) {
     }
   }
   let text: String = s.into_iter().collect();
+  // the JSON readers beside their character-level model (Model/JsonCodec.v; C12_json_accepts_only_valid)
+  if base.starts_with('{') && text.is_ascii() {
+    asciix::compare_reader_json_1d::<u64, Hpx<u64>>(rep, orc, "s", 64, &text, "c12-mutated");
+    asciix::compare_reader_json_1d::<u16, Time<u16>>(rep, orc, "t", 16, &text, "c12-mutated");
+  }
+  if base.starts_with('[') && text.is_ascii() {
+    asciix::compare_reader_json_2d(rep, orc, &text, "c12-mutated");
+  }
   let store = U64MocStore::get_global_store();
   let len = text.len();
   let mut run = |name: &str, f: &dyn Fn() -> Result<(), String>| {
@@ -540,7 +549,7 @@ pub fn run(ctx: &Ctx) -> Report {
   }
   let n_text = ctx.n(1_500, 60_000);
   for _ in 0..n_text {
-    text_totality(&mut rep, &mut rng);
+    text_totality(&mut rep, &mut orc, &mut rng);
   }
   // header programs: FITS documents assembled card by card, through from_fits_ivoa in-process beside
   // the byte-level model of the reader
